@@ -4,6 +4,7 @@ from concurrent.futures import ThreadPoolExecutor
 from lib import build, runner
 
 PROP = "C20"
+FREE_TIMEOUT = 400
 
 
 def _bins():
@@ -46,22 +47,33 @@ def run(tier):
     for st in stages:
         ck.add(runner.run_slices(sched, st, nslices=n, timeout=6000))
     # supporting evidence: free-running threads under real TSan (a report makes the process exit 66)
-    rc, out, err = runner.run_cmd([free, "rounds=%d" % (2 if tier == "quick" else 10), "0", "1"], timeout=1800,
+    rc, out, err = runner.run_cmd([free, "rounds=%d" % (2 if tier == "quick" else 10), "0", "1"], timeout=FREE_TIMEOUT,
                                   env={"TSAN_OPTIONS": "exitcode=66:halt_on_error=0:report_signal_unsafe=0"})
     r = runner.Result()
     r.feed(out)
     if rc == 66 or "WARNING: ThreadSanitizer" in err:
         first = [l for l in err.splitlines() if "WARNING: ThreadSanitizer" in l or l.strip().startswith("#0") or l.strip().startswith("#1")][:5]
         r.viol["FREE|tsan-report"] = "free-running ThreadSanitizer pass reported: " + " | ".join(x.strip() for x in first)
+    elif rc == -999 or rc < 0:
+        # real threads stepping on shared state may also hang or crash: an observation about the code, not a harness error
+        r.viol["FREE|hang-or-crash"] = "free-running pass " + ("did not terminate within %d s" % FREE_TIMEOUT if rc == -999 else "died with signal %d" % -rc)
     elif rc != 0:
         r.errors.append("free-running pass exited %s: %s" % (rc, err[-500:]))
     ck.add(r)
+    # the free-running pass is supporting evidence and not deterministic: when the systematic exploration has reported
+    # the defect, its schedules are the replayable artefacts and the free-running reports are dropped
+    if any(k.startswith("SCH|") for k in ck.res.viol):
+        for k in [k for k in ck.res.viol if k.startswith("FREE|")]:
+            del ck.res.viol[k]
+            ck.res.sum["free_running_reports_dropped"] = ck.res.sum.get("free_running_reports_dropped", 0) + 1
     for sig in list(ck.res.viol):
         ck.res.viol[sig] = _symbolize(sched, ck.res.viol[sig])
     ck.rule = ("T threads (quick 2; thorough 2 and 3) each perform a read-only operation on artifacts built single-threaded beforehand: "
-               "a compiled json_schema (pattern, $ref, unevaluatedProperties, draft-07 if/then/else), a jsonpath_expression (filter, "
-               "functions, regex), a jmespath_expression (projection, sort_by, multiselect), a json/ojson document (lookup, iteration, "
-               "compare, copy, dump, CBOR encode, pointer get), one-shot queries, and mixed pairings; all threads use the same artifact and "
+               "compiled json_schemas (2020-12 and draft-07, together using every assertion keyword incl. contentMediaType/contentEncoding, "
+               "all string formats, $dynamicRef, unevaluated*), jsonpath_expressions (filter, every function, regex, tokenize with patterns "
+               "taken from the document), jmespath_expressions (projection, sort_by, multiselect, every built-in function), a json/ojson "
+               "document (lookup, iteration, compare, copy, dump on every double-formatting path and option set, CBOR encode, pointer get), "
+               "one-shot queries, and mixed pairings; all threads use the same artifact and "
                "document. Every schedule with <= k preemptions (quick k=2; thorough k=3 for T=2, k=2 for T=3), switching at the "
                "synchronisation operations the code performs (TSan-ABI atomics, static-local guards, thread start/exit), is executed in its "
                "own forked process (static-local initialisation is fresh in every execution). Oracle per execution: each thread's "
@@ -79,8 +91,14 @@ def run(tier):
 def replay(sig):
     sched, free = _bins()
     if sig.startswith("FREE|"):
-        rc, out, err = runner.run_cmd([free, "rounds=5", "0", "1"], timeout=1800, env={"TSAN_OPTIONS": "exitcode=66:halt_on_error=0"})
-        return (rc == 66 or "WARNING: ThreadSanitizer" in err), "free-running TSan report"
+        # real threads: a report may need several attempts to show again
+        for attempt in range(8):
+            rc, out, err = runner.run_cmd([free, "rounds=5", "0", "1"], timeout=FREE_TIMEOUT, env={"TSAN_OPTIONS": "exitcode=66:halt_on_error=0"})
+            r = runner.Result()
+            r.feed(out)
+            if rc == 66 or rc < 0 or "WARNING: ThreadSanitizer" in err or any(k.startswith("FREE|") for k in r.viol):
+                return True, "free-running pass reports again"
+        return False, "free-running pass reports again"
     rc, out, err = runner.run_cmd([sched, "replay", sig], timeout=600)
     r = runner.Result()
     r.feed(out)
